@@ -169,13 +169,29 @@ def builder(db, ctx):
     ok = False
     for c, _ in walk(r.hir):
         if is_call(c) and path_ends(callee(c), "ChainedResolver::new"):
-            a = [render(x) for x in call_args(c)]
-            ok = a == ["this_resolver", "built_resolver"]
-    ctx.ob("resolve_impl|own-first", ok, "ChainedResolver::new(this_resolver, built_resolver): own entries are consulted first: %s" % ok, fn=r)
+            # by type, not by what the two locals are called: (resolver over this dictionary's own raw entries, resolver over the
+            # already built dictionary)
+            tys = [(peel(x).get("ty") or "") for x in call_args(c)]
+            ok = len(tys) == 2 and "RawDictResolver" in tys[0] and "BinDictResolver" in tys[1]
+    ctx.ob("resolve_impl|own-first", ok, "ChainedResolver::new(<RawDictResolver: own entries>, <BinDictResolver: built dictionary>): own entries are consulted first: %s" % ok, fn=r)
     rr = db.one("new", "RawDictResolver")
-    ok = any(n.get("k") == "Let" and n["pat"].get("name") == "dic_id" and "if user {1} else {0}" in render(n["init"]).replace(" ", "").replace("{", "{").replace("if", "if ").replace("else", " else ")
-             or (n.get("k") == "Let" and n["pat"].get("name") == "dic_id" and peel(n["init"]).get("k") == "If" and lit_int(peel(n["init"])["then"]) == 1 and lit_int(peel(n["init"]).get("else")) == 0)
-             for n, _ in walk(rr.hir))
+    # by role: the dictionary number given to WordId::new for the resolver's own entries is 1 iff the `user` flag (the bool parameter) is set
+    from ..flow import select as _sel
+    from ..db import is_local as _isl, deref_all as _dra
+    u_lid = next((p_.get("lid") for p_ in (rr.info.get("params") or []) if isinstance(p_, dict) and (p_.get("ty") or "") == "bool"), None)
+
+    def _ev_user(v):
+        def ev(atom):
+            a_ = peel(atom)
+            if isinstance(a_, dict) and _isl(a_, u_lid):
+                return v
+            return None
+        return ev
+    ok = False
+    for c, _ in walk(rr.hir):
+        if is_call(c) and path_ends(callee(c) or "", ("WordId::new", "WordId::checked")) and call_args(c):
+            d1, d0 = (lit_int(_sel(db, rr, call_args(c)[0], _ev_user(v))) for v in (True, False))
+            ok = d1 == 1 and d0 == 0
     ctx.ob("RawDictResolver|dic_id", ok, "own-dictionary references carry dictionary 1 when building a user dictionary, else 0: %s" % ok, fn=rr)
 
 
